@@ -524,10 +524,19 @@ autobins = false
             stderr = f[:-3] + ".stderr"
             markers = []
             if os.path.exists(stderr):
+                # only the macros' own diagnostics (`error: ..` blocks); `error[E....]` blocks are rustc follow-on
+                # errors whose presence depends on the compiler version the .stderr was recorded with
+                in_macro_block = False
+                took = False
                 for line in open(stderr):
+                    if line.startswith("error"):
+                        in_macro_block = not line.startswith("error[")
+                        took = False
+                        continue
                     mm = re.match(r"\s*--> (\S+):(\d+):(\d+)", line)
-                    if mm and mm.group(1).endswith(os.path.basename(f)):
+                    if mm and in_macro_block and not took and mm.group(1).endswith(os.path.basename(f)):
                         markers.append(int(mm.group(2)))
+                        took = True
             c = SourceCrate(bn, dst, "sylvia/tests/ui/" + os.path.relpath(f, ui), cfg_test=False, features=feats)
             c.suffix = ".bin"
             c.expect_fail = True
